@@ -6,6 +6,9 @@
 package arrays
 
 /*@
+// String builds its result with strings.Builder and fmt.Fprint, which are outside the verifier's reach: a bounded
+// stand-in (labelled bounded, never counted as proved) compares it with the cell model for every small shape.
+bounded C08 6 10 Array2D.String against the cell model: every shape up to bound x bound, square and rectangular
 // ---------------------------------------------------------------- C08
 // The memory layout is never written in a specification: cells are observed
 // through getUnchecked, whose meaning is extracted from its code.
